@@ -54,7 +54,8 @@ structure ScopeTable where
   fieldNullable : Option Scope
   fieldUnique : Option Scope
   fieldDtype : Option Scope
-  fieldChecks : Option Scope
+  fieldChecks : Option Scope      -- ArraySchemaBackend.run_checks (Series, Index)
+  columnChecks : Option Scope     -- ColumnBackend.run_checks (columns of a DataFrameSchema)
   deriving Repr, DecidableEq, Inhabited
 
 def optRuns (s : Option Scope) (d : Depth) : Bool :=
@@ -70,7 +71,14 @@ inductive Reason
   deriving Repr, DecidableEq, Inhabited
 
 /-- which part of the schema an error speaks about -/
-inductive Ctx | frame | column | index
+inductive Ctx | frame | column | index | series
+  deriving Repr, DecidableEq, Inhabited
+
+/-- one reported failure case: (column, row position, value) -/
+structure Cell where
+  col : Option String
+  pos : Nat
+  val : Val
   deriving Repr, DecidableEq, Inhabited
 
 structure Err where
@@ -78,7 +86,7 @@ structure Err where
   ctx : Ctx
   label : Option String        -- column label / index name the error is about
   checkIx : Option Nat := none
-  cells : List (Nat × Val) := []   -- (row position, value) for row-level failures
+  cells : List Cell := []          -- row-level failure cases
   deriving Repr, DecidableEq, Inhabited
 
 end Pandera
